@@ -595,7 +595,6 @@ theorem C13_v6_rapid (xid xid2 : Bytes) (time : Nat) (hw : Bytes) (mods : List M
       unfold rapidSolicit
       simp [hb, call6, hfind (.inl ht), ht]
     · intro ht
-      have hne : (m.typ == mtReply) = false := by rw [ht]; decide
       unfold rapidSolicit
       have hd : ¬ (mtAdvertise = mtReply) := by decide
       simp [hb, call6, hfind (.inr ht), ht, hd]
